@@ -240,30 +240,38 @@ def oracle(sc, res):
     return oracle_questions(sc, res)
 
 
-def oracle_questions(sc, res):
-    """first query QU unless a type is forced, later ones QM; per question at least one second apart after its second asking"""
+def oracle_questions(sc, res, spacing=False):
+    """first query QU unless a type is forced, later ones QM (C18, C13); with spacing=True also C13's clause "a lookup spaces its queries at
+    least one second apart after the second" -> (why, tags) ; without it -> why"""
+    why, tags = _oracle_questions(sc, res, spacing)
+    return (why, tags) if spacing else why
+
+
+def _oracle_questions(sc, res, spacing):
     t0 = res['t0']
     sends = res['sends']
     qus = [all(q[2] for q in qs) for t, qs in sends if qs]
     if sends:
         if sends[0][0] != t0:
-            return f"first query at +{sends[0][0] - t0}, expected at the start"
+            return f"first query at +{sends[0][0] - t0}, expected at the start", set()
         want_first = True if sc['forced'] is None else sc['forced']
         if any(q[2] != want_first for q in sends[0][1]):
-            return f"first query QU={[q[2] for q in sends[0][1]]}, expected {want_first}"
+            return f"first query QU={[q[2] for q in sends[0][1]]}, expected {want_first}", set()
+        if sends[0][0] != t0:
+            return f"first query at +{sends[0][0] - t0}, expected at the start", set()
         for t, qs in sends[1:]:
             if any(q[2] for q in qs):
-                return f"query at +{t - t0} after the first one carries a QU question"
-        # spacing, per question: after a question has been asked twice, it is not asked again within one second
-        asked = {}
-        for t, qs in sends:
-            for q in qs:
-                asked.setdefault((q[0].lower(), q[1]), []).append(t)
-        for q, ts in asked.items():
-            for a, b in zip(ts[1:], ts[2:]):
-                if b - a < 1000:
-                    return f"question {q} asked at +{a - t0} and again at +{b - t0}: less than one second apart (after its second asking)"
-    return None
+                return f"query at +{t - t0} after the first one carries a QU question", set()
+        if spacing:
+            # the transmitted queries of the lookup: the third and every later one at least one second after its predecessor
+            times = [t for t, qs in sends if qs]
+            for k in range(2, len(times)):
+                if times[k] - times[k - 1] < 1000:
+                    # known finding: the delay is raised to 999 ms only AFTER the wake-up following the first QM query has been computed,
+                    # so the third query turn comes 200 ms + jitter after the second; it transmits whenever the history does not suppress it
+                    tags = {'lookup_third_query_early'} if k == 2 and times[k] - times[k - 1] >= 220 else set()
+                    return (f"lookup queries at +{times[k - 1] - t0} and +{times[k] - t0}: query {k + 1} less than one second after query {k}", tags)
+    return None, set()
 
 
 def jsonable(x):
